@@ -55,6 +55,9 @@ EXTRA = ("Prefer a data-dependent trigger over hidden state this time: a particu
          "chain of a particular length), or an interaction between two DIFFERENT features of the library that are rarely used "
          "together. It should still be something a real program could hit.")
 
+if os.environ.get("MUT_THEME_FILE"):
+    EXTRA = open(os.environ["MUT_THEME_FILE"]).read().strip()
+
 os.makedirs(root, exist_ok=True)
 for pid in want:
     p = props[pid]
